@@ -327,6 +327,7 @@ func (m *Master) sendOffersLocked() int {
 		for _, e := range exs {
 			mo.ExecutorIDs = append(mo.ExecutorIDs, mesos.ExecutorID{Value: e})
 		}
+		m.scrubOffer(a, &mo) // offer_nohostname.go: every offer is complete unless BlankOfferHostname was used
 		offs = append(offs, mo)
 		ids = append(ids, o.id)
 		hosts = append(hosts, a.Hostname)
